@@ -1,4 +1,265 @@
-import SimVerif.Model.Tracker
+import SimVerif.Props.C04
+import Mathlib.Data.List.Perm.Basic
+/-!
+# C03 — track lifecycle: conservation, exact expiry, wasted once, GC timing
+
+Model: `SimVerif.Tracker` (epochs, `expired`, `collect` = `auto_waste`, countdown `awStep`, `wastedOp`,
+`idle`, `clearWasted`, statistics). For every distance table and every valid choice.
+-/
 namespace SimVerif.C03
-theorem C03_placeholder : True := trivial
+open SimVerif.Tracker SimVerif.C01 List
+
+/-- **Exact expiry**: a track is expired exactly when its scene's epoch exceeds its last update
+epoch by more than `max_idle_epochs`. -/
+theorem C03_expiry (cfg : Cfg) (st : St) (t : Trk) :
+    expired cfg st t = true ↔ t.lastUpd + cfg.maxIdle < epochOf st t.scene := by
+  simp [expired]
+
+theorem collect_epochs (cfg : Cfg) (st : St) (s : Nat) : epochOf (collect cfg st) s = epochOf st s := rfl
+
+/-- **Epochs**: `predict` advances its own scene by one (empty call or not), `skip` by `n`; other scenes
+are untouched by either; collecting never changes an epoch. -/
+theorem C03_epochs (cfg : Cfg) (st : St) (scene n : Nat) :
+    (epochOf (skip cfg st scene n) scene = epochOf st scene + n ∧
+     ∀ s, s ≠ scene → epochOf (skip cfg st scene n) s = epochOf st s) ∧
+    (∀ st' dets table picks lo hi recs,
+      predictScene cfg st scene dets table picks lo hi = some (st', recs) →
+        epochOf st' scene = epochOf st scene + 1 ∧ ∀ s, s ≠ scene → epochOf st' s = epochOf st s) := by
+  refine ⟨⟨?_, ?_⟩, ?_⟩
+  · unfold skip; rw [collect_epochs, epochOf_setEpoch, if_pos rfl]
+  · intro s hs; unfold skip; rw [collect_epochs, epochOf_setEpoch, if_neg hs]
+  · intro st' dets table picks lo hi recs h
+    refine ⟨(C01_len_echo cfg st st' scene dets table picks lo hi recs h).2.2.2.2, ?_⟩
+    obtain ⟨_, _, ha⟩ := predictScene_parts cfg st st' scene dets table picks lo hi recs h
+    obtain ⟨_, _, _, _, _, _, b7, _⟩ := applyPicks_spec cfg scene _ dets picks _ st' recs ha
+    intro s hs
+    have h1 : epochOf st' s = epochOf (setEpoch st scene (epochOf st scene + 1)) s := by
+      unfold epochOf; rw [b7]; rfl
+    rw [h1, epochOf_setEpoch, if_neg hs]
+
+/-- **An expired track is never continued**: whatever the table and the (valid) choice, every
+continued track is unexpired at the call's epoch. -/
+theorem C03_never_continued (cfg : Cfg) (st st' : St) (scene : Nat) (dets : List Det) (table : List Entry)
+    (picks : List Pick) (lo hi : Nat) (recs : List Rec)
+    (h : predictScene cfg st scene dets table picks lo hi = some (st', recs)) (tid : Nat) (vis : Bool)
+    (hp : Pick.cont tid vis ∈ picks) :
+    ∃ t, findLive st tid = some t ∧ expired cfg (setEpoch st scene (epochOf st scene + 1)) t = false := by
+  obtain ⟨t, ht, hs, hne⟩ := C04.C04_no_cross cfg st st' scene dets table picks lo hi recs h tid vis hp
+  refine ⟨t, ht, ?_⟩
+  rw [Bool.eq_false_iff]
+  intro hex
+  rw [C03_expiry, epochOf_setEpoch, hs, if_pos rfl] at hex
+  exact hne hex
+
+/-- every id the tracker knows about, by place -/
+def allIds (st : St) : List Nat := st.live.map (·.id) ++ st.wasted.map (·.id) ++ st.handed ++ st.cleared
+
+theorem filter_split_perm {α : Type} (p : α → Bool) (l : List α) :
+    l.filter (fun x => !p x) ++ l.filter p ~ l := by
+  have := (filter_append_perm p l)
+  exact perm_append_comm.trans this
+
+/-- **Conservation**: collecting, handing out and clearing only move ids between places — nothing is
+lost or duplicated; a predict adds exactly the ids of the tracks it starts. -/
+theorem C03_conservation (cfg : Cfg) (st : St) :
+    allIds (collect cfg st) ~ allIds st ∧
+    allIds (awStep cfg st) ~ allIds st ∧
+    (∀ s n, allIds (skip cfg st s n) ~ allIds st) ∧
+    allIds (wastedOp cfg st).1 ~ allIds st ∧
+    allIds (clearWasted st) ~ allIds st ∧
+    (∀ p, allIds (setAutoWaste st p) = allIds st) ∧
+    (∀ st' scene dets table picks lo hi recs,
+      predictScene cfg st scene dets table picks lo hi = some (st', recs) →
+        allIds st' ~ allIds st ++ freshIds picks) := by
+  have hcollect : ∀ st : St, allIds (collect cfg st) ~ allIds st := by
+    intro st
+    have h := (filter_split_perm (expired cfg st) st.live).map (·.id)
+    rw [map_append] at h
+    show (map (·.id) (st.live.filter (fun t => !expired cfg st t)) ++
+        map (·.id) (st.wasted ++ st.live.filter (fun t => expired cfg st t))) ++ st.handed ++ st.cleared ~
+        (map (·.id) st.live ++ map (·.id) st.wasted) ++ st.handed ++ st.cleared
+    rw [map_append]
+    apply Perm.append_right
+    apply Perm.append_right
+    generalize map (·.id) (st.live.filter (fun t => !expired cfg st t)) = A at h ⊢
+    generalize map (·.id) (st.live.filter (fun t => expired cfg st t)) = X at h ⊢
+    generalize map (·.id) st.wasted = W
+    generalize map (·.id) st.live = L at h ⊢
+    calc A ++ (W ++ X) ~ A ++ (X ++ W) := Perm.append_left _ perm_append_comm
+      _ = (A ++ X) ++ W := (append_assoc _ _ _).symm
+      _ ~ L ++ W := Perm.append_right _ h
+  refine ⟨hcollect st, ?_, ?_, ?_, ?_, fun _ => rfl, ?_⟩
+  · unfold awStep
+    split
+    · exact hcollect st
+    · exact Perm.refl _
+  · intro s n; exact hcollect _
+  · have hc := hcollect st
+    refine Perm.trans ?_ hc
+    show (map (·.id) (collect cfg st).live ++ map (·.id) ([] : List Trk)) ++
+        ((collect cfg st).handed ++ map (·.id) (collect cfg st).wasted) ++ (collect cfg st).cleared ~
+        (map (·.id) (collect cfg st).live ++ map (·.id) (collect cfg st).wasted) ++ (collect cfg st).handed ++ (collect cfg st).cleared
+    apply Perm.append_right
+    simp only [map_nil, append_nil, append_assoc]
+    exact Perm.append_left _ perm_append_comm
+  · show (map (·.id) st.live ++ map (·.id) ([] : List Trk)) ++ st.handed ++ (st.cleared ++ map (·.id) st.wasted) ~
+        (map (·.id) st.live ++ map (·.id) st.wasted) ++ st.handed ++ st.cleared
+    simp only [map_nil, append_nil, append_assoc]
+    apply Perm.append_left
+    generalize map (·.id) st.wasted = W
+    calc st.handed ++ (st.cleared ++ W) = (st.handed ++ st.cleared) ++ W := (append_assoc _ _ _).symm
+      _ ~ W ++ (st.handed ++ st.cleared) := perm_append_comm
+  · intro st' scene dets table picks lo hi recs h
+    obtain ⟨_, _, ha⟩ := predictScene_parts cfg st st' scene dets table picks lo hi recs h
+    obtain ⟨_, _, _, _, _, _, _, b8, b9, b10, _, b12⟩ := applyPicks_spec cfg scene _ dets picks _ st' recs ha
+    have hall : allIds st' = (st.live.map (·.id) ++ freshIds picks) ++ st.wasted.map (·.id) ++ st.handed ++ st.cleared := by
+      simp only [allIds, b8, b9, b10, b12]; rfl
+    rw [hall]
+    show (st.live.map (·.id) ++ freshIds picks) ++ st.wasted.map (·.id) ++ st.handed ++ st.cleared ~
+      ((st.live.map (·.id) ++ st.wasted.map (·.id)) ++ st.handed ++ st.cleared) ++ freshIds picks
+    generalize st.live.map (·.id) = L
+    generalize st.wasted.map (·.id) = W
+    generalize freshIds picks = F
+    simp only [append_assoc]
+    apply Perm.append_left
+    calc F ++ (W ++ (st.handed ++ st.cleared)) ~ (W ++ (st.handed ++ st.cleared)) ++ F := perm_append_comm
+      _ = W ++ (st.handed ++ (st.cleared ++ F)) := by simp [append_assoc]
+
+/-- **In exactly one place** (simple trackers): with unique ids bounded by the counter — true
+initially — a predict keeps all ids pairwise distinct. -/
+theorem C03_one_place (cfg : Cfg) (hb : cfg.batchIds = false) (st st' : St) (hinv : IdsBelow st)
+    (hnd : (allIds st).Nodup) (scene : Nat) (dets : List Det) (table : List Entry) (picks : List Pick) (recs : List Rec)
+    (h : predictScene cfg st scene dets table picks 0 0 = some (st', recs)) : (allIds st').Nodup := by
+  have hperm := (C03_conservation cfg st).2.2.2.2.2.2 st' scene dets table picks 0 0 recs h
+  rw [hperm.nodup_iff, nodup_append]
+  obtain ⟨_, hgt, _⟩ := C01_distinct_fresh cfg hb st st' hinv scene dets table picks recs h
+  obtain ⟨_, hf, _⟩ := predictScene_parts cfg st st' scene dets table picks 0 0 recs h
+  have hfr : freshIds picks = (List.range (freshIds picks).length).map (fun i => st.nextId + 1 + i) := by
+    unfold freshIdsOk at hf
+    simp only [hb, Bool.false_eq_true, if_false, beq_iff_eq] at hf
+    exact hf
+  refine ⟨hnd, ?_, ?_⟩
+  · rw [hfr]
+    refine Nodup.map_on ?_ nodup_range
+    intro a _ b _ hab; omega
+  · intro a ha b hb' hab
+    subst hab
+    have hlt := hgt a hb'
+    unfold allIds at ha
+    simp only [mem_append, mem_map] at ha
+    rcases ha with ((⟨t, ht, rfl⟩ | ⟨t, ht, rfl⟩) | ha) | ha
+    · have := hinv.live t ht; omega
+    · have := hinv.wasted t ht; omega
+    · have := hinv.handed a ha; omega
+    · have := hinv.cleared a ha; omega
+
+/-- **Wasted once**: the ids handed out by one `wasted()` call were never handed out before (ids are
+unique), and they are all recorded as handed — so they can never be handed out again. -/
+theorem C03_wasted_once (cfg : Cfg) (st : St) (hnd : (allIds st).Nodup) :
+    (∀ t ∈ (wastedOp cfg st).2, t.id ∉ st.handed ∧ t.id ∈ (wastedOp cfg st).1.handed) ∧
+    (wastedOp cfg st).1.wasted = [] ∧
+    (∀ t ∈ (wastedOp cfg st).2, t ∈ st.wasted ∨ (t ∈ st.live ∧ expired cfg st t = true)) := by
+  have hc := ((C03_conservation cfg st).1.nodup_iff).mpr hnd
+  refine ⟨?_, rfl, ?_⟩
+  · intro t ht
+    simp only [wastedOp] at ht ⊢
+    refine ⟨?_, by simp [mem_map]; exact Or.inr ⟨t, ht, rfl⟩⟩
+    intro hh
+    -- t.id would occur twice in allIds (collect st): once in wasted, once in handed
+    unfold allIds at hc
+    have h1 : t.id ∈ map (·.id) (collect cfg st).live ++ map (·.id) (collect cfg st).wasted :=
+      mem_append_right _ (mem_map_of_mem ht)
+    have h2 : t.id ∈ (collect cfg st).handed := hh
+    rw [append_assoc, append_assoc, ← append_assoc] at hc
+    have := (nodup_append.mp hc).2.2 _ h1 _ (mem_append_left _ h2)
+    exact this rfl
+  · intro t ht
+    simp only [wastedOp, collect, mem_append, mem_filter] at ht
+    rcases ht with ht | ⟨ht, he⟩
+    · exact Or.inl ht
+    · exact Or.inr ⟨ht, he⟩
+
+theorem expired_collect (cfg : Cfg) (st : St) (t : Trk) : expired cfg (collect cfg st) t = expired cfg st t := rfl
+
+/-- collecting twice is collecting once -/
+theorem collect_idem (cfg : Cfg) (st : St) : collect cfg (collect cfg st) = collect cfg st := by
+  have h1 : (collect cfg (collect cfg st)).live = (collect cfg st).live := by
+    show ((st.live.filter (fun t => !expired cfg st t)).filter (fun t => !expired cfg (collect cfg st) t)) = _
+    simp only [expired_collect, filter_filter, Bool.and_self]
+    rfl
+  have h2 : (collect cfg (collect cfg st)).wasted = (collect cfg st).wasted := by
+    show (collect cfg st).wasted ++ ((st.live.filter (fun t => !expired cfg st t)).filter (fun t => expired cfg (collect cfg st) t)) = _
+    simp only [expired_collect, filter_filter]
+    have : st.live.filter (fun t => expired cfg st t && !expired cfg st t) = [] := by
+      apply filter_eq_nil_iff.mpr; intro a _; simp
+    rw [this, append_nil]
+  show ({ collect cfg st with live := (collect cfg (collect cfg st)).live, wasted := (collect cfg (collect cfg st)).wasted } : St) = collect cfg st
+  rw [h1, h2]
+
+/-- **GC timing does not show in `idle_tracks`**: the answer is the same whether or not the periodic
+collection has already run — it lists exactly the unexpired tracks of the scene not updated in the
+scene's current epoch. -/
+theorem C03_idle (cfg : Cfg) (st : St) (scene : Nat) :
+    idle cfg (collect cfg st) scene = idle cfg st scene ∧
+    ∀ t, t ∈ idle cfg st scene ↔
+      t ∈ st.live ∧ t.scene = scene ∧ ¬ (t.lastUpd + cfg.maxIdle < epochOf st t.scene) ∧ t.lastUpd ≠ epochOf st scene := by
+  constructor
+  · show (st.live.filter (fun t => !expired cfg st t)).filter
+        (fun t => t.scene == scene && !expired cfg (collect cfg st) t && !(t.lastUpd == epochOf (collect cfg st) scene)) = _
+    simp only [expired_collect, collect_epochs, filter_filter]
+    unfold idle
+    apply filter_congr
+    intro t _
+    cases expired cfg st t <;> simp
+  · intro t
+    simp only [idle, mem_filter, Bool.and_eq_true, beq_iff_eq, Bool.not_eq_true', expired, decide_eq_false_iff_not,
+      beq_eq_false_iff_ne, ne_eq, and_assoc]
+
+/-- **`wasted()` does not depend on GC timing either**: it collects first. -/
+theorem C03_wasted_gc (cfg : Cfg) (st : St) : wastedOp cfg (collect cfg st) = wastedOp cfg st := by
+  unfold wastedOp; rw [collect_idem]
+
+/-- **Statistics**: the per-shard counts add up to the number of tracks held (`n > 0` shards). -/
+theorem C03_stats (n : Nat) (hn : 0 < n) (l : List Trk) : (shardCounts n l).sum = l.length := by
+  unfold shardCounts
+  induction l with
+  | nil => simp
+  | cons t rest ih =>
+    have hk : t.id % n < n := Nat.mod_lt _ hn
+    have key : ∀ m, t.id % n < m →
+        ((List.range m).map (fun k => ((t :: rest).filter (fun x => x.id % n == k)).length)).sum =
+        ((List.range m).map (fun k => (rest.filter (fun x => x.id % n == k)).length)).sum + 1 := by
+      intro m
+      induction m with
+      | zero => intro h; omega
+      | succ m ihm =>
+        intro h
+        rw [List.range_succ, map_append, map_append, sum_append, sum_append]
+        simp only [map_cons, map_nil, sum_cons, sum_nil, Nat.add_zero]
+        by_cases hm : t.id % n = m
+        · have hnot : ∀ k ∈ List.range m, (t.id % n == k) = false := by
+            intro k hk'; have := mem_range.mp hk'; simp; omega
+          have hsame : (List.range m).map (fun k => ((t :: rest).filter (fun x => x.id % n == k)).length) =
+              (List.range m).map (fun k => (rest.filter (fun x => x.id % n == k)).length) := by
+            apply map_congr_left
+            intro k hk'
+            simp [filter_cons, hnot k hk']
+          rw [hsame]
+          simp [filter_cons, hm]
+          omega
+        · have hlt : t.id % n < m := by omega
+          rw [ihm hlt]
+          have : (t.id % n == m) = false := by simp [hm]
+          simp [filter_cons, this]
+          omega
+    rw [key n hk, ih]
+    simp
+
+/-! ### non-vacuity: a track expiring while still physically live, then handed out once -/
+private def cfg0 : Cfg := { maxIdle := 1, histLen := 3, batchIds := false, thr := 300000 }
+private def st0 : St := { epochs := [(0, 4)], live := [⟨1, 0, 1, 1, none, [1], false⟩, ⟨2, 0, 4, 2, none, [2, 3], false⟩], nextId := 2 }
+example : expired cfg0 st0 ⟨1, 0, 1, 1, none, [1], false⟩ = true := by decide
+example : (idle cfg0 st0 0).map (·.id) = [] ∧ ((wastedOp cfg0 st0).2.map (·.id)) = [1] ∧
+    ((wastedOp cfg0 (wastedOp cfg0 st0).1).2.map (·.id)) = [] := by decide
+
 end SimVerif.C03
